@@ -892,6 +892,8 @@ where
         if !is_current_info {
             return;
         }
+        #[cfg(mini_moka_verif)]
+        crate::verif::sched::point("upsert:checked");
         // Let the deque nodes share the key object held by the hash map (this op may
         // carry another, equal, key object if it was created by an update).
         let kh = KeyHash::new(map_key.unwrap_or_else(|| Arc::clone(&kh.key)), kh.hash);
@@ -1171,6 +1173,8 @@ where
             // expired. This check is needed because it is possible that the entry in
             // the map has been updated or deleted but its deque node we checked
             // above have not been updated yet.
+            #[cfg(mini_moka_verif)]
+            crate::verif::sched::point("expire_ao:before_remove");
             let maybe_entry = self
                 .cache
                 .remove_if(key, |_, v| is_expired_entry_ao(tti, va, v, now));
@@ -1237,6 +1241,8 @@ where
 
             let key = key.as_ref().unwrap();
 
+            #[cfg(mini_moka_verif)]
+            crate::verif::sched::point("expire_wo:before_remove");
             let maybe_entry = self
                 .cache
                 .remove_if(key, |_, v| is_expired_entry_wo(ttl, va, v, now));
@@ -1301,6 +1307,8 @@ where
                 None => break,
             };
 
+            #[cfg(mini_moka_verif)]
+            crate::verif::sched::point("evict:before_remove");
             let maybe_entry = self.cache.remove_if(&key, |_, v| {
                 if let Some(lm) = v.last_modified() {
                     lm == ts
